@@ -388,3 +388,35 @@ Example C15_example_colour :
   node_colour nested_example [0; 0; 0] = Some 1 /\ node_colour nested_example [1] = None
   /\ intern_all Nat.eqb [] [5; 7; 5; 9; 7] = ([5; 7; 9], [0; 1; 0; 2; 1]).
 Proof. repeat split. Qed.
+
+(* ---- closing corollaries added after the independent review (DESIGN 10.3): the lemmas are in Proofs/ReviewC*.v ---- *)
+
+From SR Require Import Proofs.ReviewCEscape. Import ReviewCEscape.PartF.
+
+Theorem C15_species_label_escapes :
+  forall name : str, species_label None name = Some (escape name).
+Proof. exact @species_label_escapes. Qed.
+Print Assumptions C15_species_label_escapes.
+
+Theorem C15_species_label_wrapped_escapes :
+  forall (w : nat) (name : str),
+       species_label (Some w) name = option_map (replace1 nl bsbs) (balanced_wrap (escape name) w).
+Proof. exact @species_label_wrapped_escapes. Qed.
+Print Assumptions C15_species_label_wrapped_escapes.
+
+Theorem C15_leaf_label_escapes :
+  forall (width : option nat) (name : str) (syn psyn : option (list str)) (a b : str),
+       synteny_text width syn = Some [] ->
+       rsplit_us name = Some (a, b) ->
+       node_label width true name syn psyn = Some (escape a ++ textsub ++ escape b ++ [rbrace]).
+Proof. exact @leaf_label_escapes. Qed.
+Print Assumptions C15_leaf_label_escapes.
+
+Theorem C15_leaf_label_synteny_escapes :
+  forall (width : option nat) (name : str) (fams : list str) (psyn : option (list str))
+         (c : ascii) (st : str),
+       option_map (replace1 nl bsbs) (format_synteny (map escape fams) width) = Some (c :: st) ->
+       node_label width true name (Some fams) psyn = Some (c :: st).
+Proof. exact @leaf_label_synteny_escapes. Qed.
+Print Assumptions C15_leaf_label_synteny_escapes.
+
